@@ -19,7 +19,7 @@ RULE = ("Streams of 120..500 points (thorough ..2500) with 1-2 categorical (nume
         "a leaf whose library path id is K, points of one reservoir reach one leaf object and different reservoirs different leaf "
         "objects; the newest observation is contained in the reservoir its own routing id names. TreeImputer (both "
         "use_storage modes, direct_predict_numeric on/off, list/set/tuple subsets incl. empty and full, n_samples 1..3, instance drawn "
-        "from the history) at Hypothesis-chosen checkpoints: inputs agree with x outside the subset; with use_storage and a reservoir "
+        "from the history; a freshly built imputer or a LONG-LIVED one that was already used before the trees were restructured) at Hypothesis-chosen checkpoints: inputs agree with x outside the subset; with use_storage and a reservoir "
         "for the routed leaf every imputed value is the value that feature has in a point of THAT reservoir (otherwise any finite value); "
         "without storage categorical values are classes observed for that feature, numeric values finite; n_samples predictions; x and "
         "all reservoirs unchanged. Non-trivial: the leaf set of some feature changed at least twice and some tree has >= 3 leaves; "
@@ -114,15 +114,24 @@ def check_storage(storage, feature_names, seen_ids, n_updates, newest, length, s
     return None
 
 
-def check_imputer(storage, feature_names, cats, nums, rows_seen, spec, observed):
+def check_imputer(storage, feature_names, cats, nums, rows_seen, spec, observed, pool=None):
     from ixai.imputer import TreeImputer
     from ixai.storage import TreeStorage
-    calls = []
+    reuse = pool is not None and spec.get('reuse')
+    pkey = (spec['use_storage'], spec['direct'])
+    if reuse and pkey in pool:
+        # a LONG-LIVED imputer: built at an earlier checkpoint and used again after the trees have been restructured in between
+        imp, calls = pool[pkey]
+        del calls[:]
+    else:
+        calls = []
 
-    def model(x):
-        calls.append(dict(x))
-        return {'output': float(sum(v for v in x.values()))}
-    imp = TreeImputer(model, storage_object=storage, use_storage=spec['use_storage'], direct_predict_numeric=spec['direct'])
+        def model(x):
+            calls.append(dict(x))
+            return {'output': float(sum(v for v in x.values()))}
+        imp = TreeImputer(model, storage_object=storage, use_storage=spec['use_storage'], direct_predict_numeric=spec['direct'])
+        if reuse:
+            pool[pkey] = (imp, calls)
     x = rows_seen[spec['row'] % len(rows_seen)]
     if spec.get('synthetic'):
         # a point composed feature-wise from different observed rows: it may be routed to a leaf that has no data point yet
@@ -185,6 +194,7 @@ def run_case(case):
     observed = {f: set() for f in names}
     state = {'max_leaves': 0, 'last_keys': {}, 'changes': {}, 'seen_rows': set()}
     checkpoints = {c['at']: c for c in case['imputer_checks']}
+    pool = {}
     for t, x in enumerate(rows, start=1):
         keep.append(x)
         seen_ids.add(id(x))
@@ -200,7 +210,7 @@ def run_case(case):
             return Result(False, key=err[0], detail=err[1])
         c = checkpoints.get(t)
         if c is not None and t >= 5:
-            err = check_imputer(storage, names, cats, nums, keep, c, observed)
+            err = check_imputer(storage, names, cats, nums, keep, c, observed, pool)
             if err:
                 return Result(False, key=err[0], detail=f'checkpoint after update {t}: {err[1]}')
     changes = max(state['changes'].values()) if state['changes'] else 0
@@ -223,7 +233,8 @@ def cases(draw, tmax):
         checks.append({'at': at, 'use_storage': draw(st.sampled_from([True, True, False])), 'direct': draw(st.booleans()),
                        'row': draw(st.integers(0, 10 ** 4)), 'synthetic': draw(st.booleans()),
                        'subset': draw(st.lists(st.integers(0, 3), unique=True, max_size=4)),
-                       'subset_type': draw(st.sampled_from(['list', 'set', 'tuple'])), 'n_samples': draw(st.integers(1, 3))})
+                       'subset_type': draw(st.sampled_from(['list', 'set', 'tuple'])), 'n_samples': draw(st.integers(1, 3)),
+                       'reuse': draw(st.booleans())})
     return {'T': T, 'n_cat': rev(1, 2), 'n_num': rev(1, 2), 'switches': switches, 'stream_seed': draw(st.integers(0, 10 ** 6)),
             'max_depth': rev(1, 5), 'grace': draw(st.sampled_from([5, 2, 10, 30])), 'length': draw(st.integers(1, 5)),
             'tree_seed': draw(st.sampled_from([3, None, 42])), 'seeds': [draw(gen.seed32) % 2 ** 31, draw(gen.seed32) % 2 ** 31],
